@@ -79,9 +79,17 @@ def mkjob(inst: Instance, none_tasks: frozenset[str] = frozenset()) -> JobInstan
     for t, outs in inst.outs.items():
         td = TaskDefinition(func=FN if t in none_tasks else FB, environment=[], input_schema={},
                             output_schema={o: "Any" for o in outs}, needs_gpu=t in inst.gpu_tasks)
-        # one static positional argument after the upstream ones, one static keyword: exercises the merge in runner.run
-        tasks[t] = TaskInstance(definition=td, static_input_kw={"_t": t, "_n": len(outs), "s": f"static-{t}"},
-                                static_input_ps={str(npos[t]): f"pos-{t}"})
+        # one static positional argument after the upstream ones, one static keyword: exercises the merge in runner.run.
+        # Parameters fed by an edge ALSO carry a static value (TaskBuilder.from_callable records defaults as static keyword
+        # inputs; graph2job writes a placeholder at edge-fed positions): the upstream value must win.
+        kw_static = {"_t": t, "_n": len(outs), "s": f"static-{t}"}
+        ps_static = {str(npos[t]): f"pos-{t}"}
+        for (s_, o_, d_), b in bind.items():
+            if d_ == t and isinstance(b, str):
+                kw_static[b] = f"default-{t}-{b}"
+            elif d_ == t:
+                ps_static[str(b)] = f"placeholder-{t}-{b}"
+        tasks[t] = TaskInstance(definition=td, static_input_kw=kw_static, static_input_ps=ps_static)
     edges = [Task2TaskEdge(source=DatasetId(s, o), sink_task=d,
                            sink_input_kw=b if isinstance(b, str) else None,
                            sink_input_ps=b if isinstance(b, int) else None)
